@@ -868,3 +868,132 @@ Proof.
   destruct (clean_not_root_shape p Hr Hne) as (segs & Hs & E & Hg). rewrite E.
   apply ends_with_slash_shape; assumption.
 Qed.
+
+(* ====================================================================================
+   HIDE: internal locations in listings, archives, and the file server's own lookups
+   ==================================================================================== *)
+
+Fixpoint node_ind' (P : node -> Prop)
+         (H : forall a b kids, Forall P kids -> P (Node a b kids)) (n : node) : P n :=
+  match n with
+  | Node a b kids =>
+      H a b kids ((fix go (l : list node) : Forall P l :=
+                     match l with
+                     | [] => Forall_nil P
+                     | k :: r => Forall_cons k (node_ind' P H k) (go r)
+                     end) kids)
+  end.
+
+Lemma listing_not_hidden : forall hide d kids f,
+  In f (listing hide d kids) -> is_hidden hide f = false.
+Proof.
+  intros hide d kids f Hin. unfold listing in Hin. apply filter_In in Hin.
+  destruct Hin as [_ Hn]. destruct (is_hidden hide f); [discriminate|reflexivity].
+Qed.
+
+Lemma listing_complete : forall hide d kids k,
+  In k kids -> is_hidden hide (child_path d (node_name k)) = false ->
+  In (child_path d (node_name k)) (listing hide d kids).
+Proof.
+  intros hide d kids k Hk Hh. unfold listing. apply filter_In. split.
+  - apply in_map_iff. exists k. split; [reflexivity|exact Hk].
+  - rewrite Hh. reflexivity.
+Qed.
+
+Lemma walk_ok hide : forall n chain d,
+  (forall a, In a chain -> is_hidden hide a = false) ->
+  forall e c, In (e, c) (walk hide chain d n) ->
+  In e c /\ (forall a, In a c -> is_hidden hide a = false).
+Proof.
+  induction n as [a b kids IH] using node_ind'. intros chain d Hc e c Hin. simpl in Hin.
+  destruct (is_hidden hide (child_path d a)) eqn:Hh; [contradiction|].
+  destruct Hin as [Heq | Hin].
+  - injection Heq as <- <-. split; [left; reflexivity|].
+    intros x [<-|Hx]; [exact Hh|apply Hc; exact Hx].
+  - destruct b; [|contradiction]. apply in_flat_map in Hin. destruct Hin as [k [Hk Hin]].
+    rewrite Forall_forall in IH. eapply (IH k Hk); [|exact Hin].
+    intros x [<-|Hx]; [exact Hh|apply Hc; exact Hx].
+Qed.
+
+Lemma archive_not_hidden : forall hide d kids e c,
+  In (e, c) (archive hide d kids) ->
+  In e c /\ (forall a, In a c -> is_hidden hide a = false).
+Proof.
+  intros hide d kids e c Hin. unfold archive in Hin. apply in_flat_map in Hin.
+  destruct Hin as [k [_ Hin]]. eapply walk_ok; [|exact Hin]. intros a [].
+Qed.
+
+(* the chain of a member: every element is the member or a directory the member lies below *)
+Lemma is_hidden_resolved : forall hide p, In p hide -> is_hidden hide (resolved p) = true.
+Proof.
+  intros hide p Hin. unfold is_hidden. apply existsb_exists. exists p. split; [exact Hin|apply beq_refl].
+Qed.
+
+Lemma is_hidden_incl : forall h1 h2 f, incl h1 h2 -> is_hidden h1 f = true -> is_hidden h2 f = true.
+Proof.
+  intros h1 h2 f Hi Hh. unfold is_hidden in *. apply existsb_exists in Hh. destruct Hh as [x [Hx Hb]].
+  apply existsb_exists. exists x. split; [apply Hi; exact Hx|exact Hb].
+Qed.
+
+(* the setups in plugin.go's order: both hide lists hold the internal paths *)
+Lemma run_setups_gen : forall h0 ps b,
+  run_setups gen_directives {| hs_initial := h0; hs_internal := Some ps; hs_browse := b |} =
+  {| ss_hidden := h0 ++ ps; ss_browse := if b then Some (h0 ++ ps) else None |}.
+Proof. intros h0 ps b. destruct b; vm_compute; reflexivity. Qed.
+
+Lemma internal_paths_on_hide_lists : forall s ps,
+  hs_internal s = Some ps ->
+  incl ps (fs_hide s) /\ (forall h, browse_hide s = Some h -> incl ps h).
+Proof.
+  intros [h0 oi b] ps Hi. simpl in Hi. subst oi. unfold fs_hide, browse_hide.
+  rewrite run_setups_gen. simpl. split.
+  - apply incl_appr, incl_refl.
+  - intros h Hh. destruct b; [|discriminate]. injection Hh as <-. apply incl_appr, incl_refl.
+Qed.
+
+Lemma internal_location_not_listed : forall s ps h d kids p,
+  hs_internal s = Some ps -> browse_hide s = Some h -> In p ps ->
+  ~ In (resolved p) (listing h d kids) /\
+  (forall e c, In (e, c) (archive h d kids) -> ~ In (resolved p) c).
+Proof.
+  intros s ps h d kids p Hi Hb Hp.
+  destruct (internal_paths_on_hide_lists s ps Hi) as [_ Hincl]. specialize (Hincl h Hb).
+  assert (Hh : is_hidden h (resolved p) = true) by (apply is_hidden_resolved, Hincl, Hp).
+  split.
+  - intro Hin. apply listing_not_hidden in Hin. congruence.
+  - intros e c Hin Hc. apply archive_not_hidden in Hin. destruct Hin as [_ Hall].
+    specialize (Hall _ Hc). congruence.
+Qed.
+
+(* the order matters: were browse set up before internal, its copy would lack the paths *)
+Lemma hide_order_matters : exists dirs ps,
+  ss_browse (run_setups dirs {| hs_initial := []; hs_internal := Some ps; hs_browse := true |}) = Some [] /\ ps <> [].
+Proof.
+  exists [bs "browse"%string; bs "internal"%string], [bs "/int"%string]. split; [vm_compute; reflexivity|discriminate].
+Qed.
+
+Lemma pick_sibling_ok : forall hide files f exts,
+  is_hidden hide f = false -> is_hidden hide (pick_sibling hide files f exts) = false.
+Proof.
+  intros hide files f exts Hf. induction exts as [|e r IH]; simpl; [exact Hf|].
+  destruct (memb (f ++ e) files); simpl; [|exact IH].
+  destruct (is_hidden hide (f ++ e)) eqn:He; simpl; [exact IH|exact He].
+Qed.
+
+Lemma fs_serve_not_hidden : forall hide idx exts files dirs p f,
+  fs_serve hide idx exts files dirs p = Some f -> is_hidden hide f = false.
+Proof.
+  intros hide idx exts files dirs p f H. unfold fs_serve in H.
+  destruct (if memb (resolved p) dirs then _ else _) as [t|]; [|discriminate].
+  destruct (memb t dirs || is_hidden hide t) eqn:Ht; [discriminate|].
+  injection H as <-. apply pick_sibling_ok. apply Bool.orb_false_iff in Ht. tauto.
+Qed.
+
+Lemma fs_never_serves_internal : forall s ps idx exts files dirs p ip,
+  hs_internal s = Some ps -> In ip ps ->
+  fs_serve (fs_hide s) idx exts files dirs p <> Some (resolved ip).
+Proof.
+  intros s ps idx exts files dirs p ip Hi Hp H. apply fs_serve_not_hidden in H.
+  destruct (internal_paths_on_hide_lists s ps Hi) as [Hincl _].
+  rewrite (is_hidden_resolved (fs_hide s) ip (Hincl _ Hp)) in H. discriminate.
+Qed.
